@@ -5,3 +5,4 @@ CONSTANTS
   FullDepth = 2
   Stride = 8
   Stride2 = 9
+  HistLen = 5
